@@ -310,11 +310,10 @@ def check(chk, repo, tier):
     helpers = repo.mod("helpers")
     ve = helpers.function("vy_eval")
     online_arm_calls = []
-    for st in ve.body:
-        if isinstance(st, ast.If) and online_test(st.test) == 1:
-            for n in ast.walk(ast.Module(body=st.body, type_ignores=[])):
-                if isinstance(n, ast.Call):
-                    online_arm_calls.append(dotted(n.func) or "")
+    for arm in online_arms(ve):
+        for n in ast.walk(ast.Module(body=arm, type_ignores=[])):
+            if isinstance(n, ast.Call):
+                online_arm_calls.append(dotted(n.func) or "")
     online_arm_taint(chk, helpers, ve)
     chk.ob("C19.vy_eval-online-literal-only", "helpers.vy_eval/online arm",
            "ast.literal_eval" in online_arm_calls and not any(
@@ -478,16 +477,27 @@ CLEANERS = {"ast.literal_eval", "int", "len", "sympy.Rational",
 TEXT_OK = {"str", "repr", "print"}  # keep the text a string
 
 
+def online_arms(fn):
+    """statement lists of fn that run exactly when ctx.online is true"""
+    out = []
+    for st in fn.body:
+        if isinstance(st, ast.If):
+            pol = online_test(st.test)
+            if pol == 1:
+                out.append(st.body)
+            elif pol == -1 and st.orelse:
+                out.append(st.orelse)
+    return out
+
+
 def online_arm_taint(chk, helpers, ve):
     """In vy_eval's online arm the user text may only be handed to literal
     parsers / string operations; anything else (sympy.sympify, parse_expr,
     nsimplify, eval, ...) may evaluate it."""
     param = ve.args.args[0].arg
-    arms = [st for st in ve.body if isinstance(st, ast.If)
-            and online_test(st.test) == 1]
-    for arm in arms:
+    for arm in online_arms(ve):
         tainted = {param}
-        body = ast.Module(body=arm.body, type_ignores=[])
+        body = ast.Module(body=arm, type_ignores=[])
         changed = True
         while changed:
             changed = False
